@@ -97,7 +97,7 @@ impl WithdrawalsBuilder {
     pub fn get_plutus_witnesses(&self) -> PlutusWitnesses {
         let tag = RedeemerTag::new_reward();
         let mut scripts = PlutusWitnesses::new();
-        for (i, (_, (_, script_wit))) in self.withdrawals.iter().enumerate() {
+        for (i, (_, (_, script_wit))) in self.ledger_ordered_withdrawals().into_iter().enumerate() {
             if let Some(ScriptWitnessType::PlutusScriptWitness(s)) = script_wit {
                 let index = BigNum::from(i);
                 scripts.add(&s.clone_with_redeemer_index_and_tag(&index, &tag));
@@ -177,10 +177,31 @@ impl WithdrawalsBuilder {
 
     pub fn build(&self) -> Withdrawals {
         let map = self
-            .withdrawals
-            .iter()
+            .ledger_ordered_withdrawals()
+            .into_iter()
             .map(|(k, (v, _))| (k.clone(), v.clone()))
             .collect();
         Withdrawals(map)
+    }
+
+    // The ledger resolves a reward redeemer index against the withdrawals ordered by reward account
+    // (network id, then script credentials before key credentials, then hash), whatever the order on
+    // the wire. Withdrawals are therefore emitted, and their redeemers indexed, in that order
+    // instead of the order in which they were added.
+    fn ledger_ordered_withdrawals(
+        &self,
+    ) -> Vec<(&RewardAddress, &(Coin, Option<ScriptWitnessType>))> {
+        fn ledger_order(address: &RewardAddress) -> (u8, u8, Vec<u8>) {
+            let cred = address.payment_cred();
+            let (kind, hash) = match (cred.to_scripthash(), cred.to_keyhash()) {
+                (Some(script_hash), _) => (0, script_hash.to_bytes()),
+                (_, Some(key_hash)) => (1, key_hash.to_bytes()),
+                _ => (2, Vec::new()),
+            };
+            (address.network_id(), kind, hash)
+        }
+        let mut entries: Vec<_> = self.withdrawals.iter().collect();
+        entries.sort_by_key(|(address, _)| ledger_order(address));
+        entries
     }
 }
